@@ -367,7 +367,10 @@ def run_paths(
                 u[node.id] = used.get(node.id, 0) + 1
                 if node.kind == 'for':
                     e2 = Evaluator(prog, module, atoms, evl.locals)
-                    e2._bind(node.ast.target, UNKNOWN)  # type: ignore[attr-defined]
+                    it = node.ast.iter  # type: ignore[attr-defined]
+                    # `for i in range(n)`: the loop variable is the number of trips made so far
+                    counted = isinstance(it, ast.Call) and norm(it.func) == 'range' and len(it.args) == 1 and not it.keywords and isinstance(node.ast.target, ast.Name)  # type: ignore[attr-defined]
+                    e2._bind(node.ast.target, used.get(node.id, 0) if counted else UNKNOWN)  # type: ignore[attr-defined]
                     l2 = e2.locals
             stack.append((s, dict(l2), te, u, False))
     return outcomes, undecided
